@@ -131,3 +131,20 @@ template<int FORM> static void t_reextent() {
 VF_HARNESS(reextent) { t_reextent<0>(); vf_reach("reextent"); }
 VF_HARNESS(reextent_fill) { t_reextent<1>(); vf_reach("reextent_fill"); }
 VF_HARNESS(reextent_rvalue) { t_reextent<2>(); vf_reach("reextent_rvalue"); }
+
+#if DIM == 1
+VF_HARNESS(assign_range) {   // assign(first,last) / = {list}: same count assigns in place (an element assignment may throw), another count goes through array(first,last)
+  Slot a; make_state<1>(a, 10, 0); SLOT(2);
+  T src[3] = {T(71), T(72), T(73)};
+  L cnt = vf_range(1, 2); L form = vf_range(0, 1);   // at most NB (= 2) elements: the survivor check bounds num_elements by NE
+  arm(); L const g_fail_at_saved = g_fail_at;
+  vf_assume(cnt == a.n[0] || g_fail_at <= 1);   // another count constructs array(first,last): an element fault there is the known finding C09-ctor-leak (ctor_* twins)
+  if(form == 1) vf_assume(cnt == 2);
+  bool threw = false; try { if(form == 0) { (*a).assign(src, src + cnt); } else { *a = {src[0], src[1]}; } } catch(Exc&) { threw = true; } disarm();
+  vf_assert(threw == (g_fail_at_saved != 0 && g_ops >= g_fail_at_saved), "the injected exception reaches the caller");
+  if(!threw) { vf_assert((*a).size() == cnt, "assign(first,last) gives last-first elements"); L k = vf_nondet_long(); vf_assume(0 <= k && k < cnt); vf_assert(val((*a)[k]) == 71 + k, "and exactly the requested contents"); }
+  check_survivor(*a, 5);
+  a.destroy(); check_all_released();
+  vf_reach("assign_range");
+}
+#endif
